@@ -28,6 +28,12 @@ CHECKS = {
         ref="DESIGN.md §6 C09", technique="Coq proof (cursor invariant + fuel sufficiency) + differential correspondence"),
 }
 
+CHECKS["C18"] = dict(
+    text="Coq theorems: for every bufio capacity, every chunking and every sequence of ReadBytes/Read operations the bytes delivered ++ buffered ++ pending "
+         "equal the stream, and a raw read after a frame read returns the bytes that follow the frame (Props/C18.v); tie: per-operation equality of the model "
+         "(capacity 4096) with ctxio.Conn on a connection delivering exact chunks, plus upgraded calls through a real service and a real client.",
+    ref="DESIGN.md §6 C18", technique="Coq proof (stream invariant over operation sequences) + differential correspondence")
+
 NOT_YET = {
 }
 
